@@ -5,6 +5,7 @@ package known
 import (
 	"encoding/json"
 	"fmt"
+	"go/ast"
 	"os"
 	"path/filepath"
 	"sort"
@@ -148,6 +149,12 @@ func WeakDiff(src, out []byte) string {
 		return "shape: " + d
 	}
 	if d := oracle.DiffStrings(squash(ca), squash(cb)); d != "" {
+		sa, sb := squash(ca), squash(cb)
+		sort.Strings(sa)
+		sort.Strings(sb)
+		if genericAlias(src) && oracle.DiffStrings(sa, sb) == "" {
+			return "" // KF-3: the misplaced decoration changes the comment order, nothing is lost
+		}
 		return "comments: " + d
 	}
 	return ""
@@ -172,10 +179,25 @@ func (f Finding) Describe() string { return fmt.Sprintf("%s (%s)", f.Key, f.What
 //	      ends, directly by a token (`*/package p`). go/printer treats a column-1 comment whose
 //	      End()+1 is the next token as a doc comment and re-flows it; in the parsed file the
 //	      distance is 0, in dst's synthetic position space it is 1.
+//	KF-3: the file declares a generic type alias (`type A[P any] = T`, accepted by go/parser since
+//	      go1.23): dst orders a TypeSpec's parts Name, '=', TypeParams, Type, so decorations next
+//	      to the '=' or the type parameter list are emitted at the wrong side of the list.
+//	KF-4: a comment group (as go/parser groups them) of two or more comments, one of them a
+//	      multi-line /* */ comment or a // comment, that starts behind a token on the same line. go/printer keeps
+//	      a group containing a newline behind the following ',' (it must not move across an
+//	      implied semicolon); dst restores every comment as its own group, so the single-line
+//	      members are flushed before the comma: `for a,/*c*/ /* m\n */b := range x` comes back
+//	      as `for a /*c*/,/* m\n */b := range x`.
 //	KF-1: !oracle.ColumnRobust(src).
 func LayoutClass(src []byte) string {
 	if abuttingBlockComment(src) {
 		return "KF-2"
+	}
+	if genericAlias(src) {
+		return "KF-3"
+	}
+	if inlineGroupWithMultiLineComment(src) {
+		return "KF-4"
 	}
 	if !oracle.ColumnRobust(src) {
 		return "KF-1"
@@ -204,6 +226,53 @@ func abuttingBlockComment(src []byte) bool {
 			continue
 		}
 		if st == 0 || s[st-1] == '\n' {
+			return true
+		}
+	}
+	return false
+}
+
+func genericAlias(src []byte) bool {
+	if !strings.Contains(string(src), "] =") {
+		return false
+	}
+	_, f, err := oracle.Parse(src)
+	if err != nil {
+		return false
+	}
+	found := false
+	ast.Inspect(f, func(n ast.Node) bool {
+		if ts, ok := n.(*ast.TypeSpec); ok && ts.TypeParams != nil && ts.Assign.IsValid() {
+			found = true
+		}
+		return !found
+	})
+	return found
+}
+
+func inlineGroupWithMultiLineComment(src []byte) bool {
+	fset, f, err := oracle.Parse(src)
+	if err != nil {
+		return false
+	}
+	tf := fset.File(f.Pos())
+	for _, g := range f.Comments {
+		if len(g.List) < 2 {
+			continue
+		}
+		multi := false
+		for _, c := range g.List {
+			if strings.HasPrefix(c.Text, "//") || strings.Contains(c.Text, "\n") {
+				multi = true // go/printer: the group "contains a newline"
+			}
+		}
+		if !multi {
+			continue
+		}
+		// does the group start behind a token on its line?
+		off := tf.Offset(g.Pos())
+		ls := tf.Offset(tf.LineStart(tf.PositionFor(g.Pos(), false).Line)) // physical line: ignore //line directives
+		if strings.TrimSpace(string(src[ls:off])) != "" {
 			return true
 		}
 	}
